@@ -652,7 +652,8 @@ def expr_w(e):
     if k in ('not', 'len'):
         return [Atom(k.upper()), expr_w(e[1])]
     if k == 'call':
-        return [Atom('CALL'), e[1], [expr_w(a) for a in e[2]]]
+        # the callee is an expression (a name): it is looked up before the arguments are evaluated
+        return [Atom('CALL'), [Atom('V'), e[1]], [expr_w(a) for a in e[2]]]
     raise ValueError(e)
 
 
